@@ -68,3 +68,13 @@ extern "C" void verif_rock_walk(const char *label)
         vsim::hist("ROCKWALK\t%s\tdir\t%d\t%d\t%d\t%d", label, (int)i, limit, readable, bad);
     }
 }
+
+// ---- link-time observer on Ipc::StoreMap::closeForUpdating() (calls from other translation units only; squid's behaviour is unchanged)
+namespace Ipc { class StoreMap; class StoreMapUpdate; }
+namespace vsim { void (*closeForUpdatingHook)() = nullptr; }
+extern "C" void __real__ZN3Ipc8StoreMap16closeForUpdatingERNS_14StoreMapUpdateE(Ipc::StoreMap *, Ipc::StoreMapUpdate &);
+extern "C" void __wrap__ZN3Ipc8StoreMap16closeForUpdatingERNS_14StoreMapUpdateE(Ipc::StoreMap *self, Ipc::StoreMapUpdate &u)
+{
+    if (vsim::closeForUpdatingHook) vsim::closeForUpdatingHook();
+    __real__ZN3Ipc8StoreMap16closeForUpdatingERNS_14StoreMapUpdateE(self, u);
+}
